@@ -168,6 +168,16 @@ pub fn setup_low_primes(r: &mut Rng, thorough: bool, scheme: SchemeType) -> Opti
     make(scheme, n, &qs, t, true, None)
 }
 
+/// a parameter set whose primes are all 60 bits wide (word-size values: lazy reductions that are exact for smaller primes leave
+/// unreduced words here), N = 32, on every level down to a single 60-bit prime
+pub fn setup_60(r: &mut Rng, scheme: SchemeType) -> Option<Setup> {
+    let n = 32usize;
+    let qs = pick_primes(r, n, &[60, 60, 60])?;
+    let t = pick_plain(r, n, 0, &qs);
+    if qs.iter().any(|&q| gcd(q, t) != 1) { return None; }
+    make(scheme, n, &qs, t, true, None)
+}
+
 /// a parameter set of the wide-plain-modulus family (t > 2^32), found by re-drawing `setup` (deterministic in the seed)
 pub fn setup_wide_t(r: &mut Rng, thorough: bool, scheme: SchemeType) -> Option<Setup> {
     for _ in 0..80 { if let Some(s) = setup(r, thorough, scheme) { if s.t > (1u64 << 32) { return Some(s); } } }
